@@ -357,6 +357,7 @@ func (sfd *StatusFileData) UpdateFullStatus(filename string, statusFunc func(*St
 	}
 	// Write the new record over the old one first and cut the file to its length afterwards, so that the file
 	// holds a complete record at every instant (a process killed between truncate and write used to leave it empty).
+	verifhook.CrashPoint("ufs_before_write")
 	err = sfd.saveToFile(file)
 	if err != nil {
 		return err
